@@ -29,7 +29,9 @@ Definition c_filt_str (v : cval) : option string :=
   | CInt z => Some (z2s z) | CStr s => Some s | CBool true => Some "True" | CBool false => Some "False"
   | CFloat r => Some r | CFunc n => Some n | _ => None
   end.
-Definition c_as_path (v : cval) : option string := match v with CStr s => Some s | _ => None end.
+Definition c_as_path (v : cval) : option string :=
+  match v with CStr s => if String.eqb s "" then None else Some s | _ => None end.
+Definition c_is_iid (v : cval) : bool := match v with CInt _ => true | CBool _ => true | _ => false end.
 
 Definition cval_eqb (a b : cval) : bool :=
   match a, b with
@@ -61,7 +63,7 @@ Definition mk_analysis (a : adata) : analysis cval :=
      a_react := fun hist f _ => script_get f (count_occ_b (fun d => String.eqb (d_hook d) f) hist) (ad_script a) |}.
 
 Definition c_call (t : linetab) (l : list adata) :=
-  call_if_exists cval c_filt_str c_as_path (c_line_of t) (map mk_analysis l).
+  call_if_exists cval c_filt_str c_as_path c_is_iid (c_line_of t) (map mk_analysis l).
 
 (* run a list of events, collecting the return value of every call *)
 Fixpoint c_run (t : linetab) (l : list adata) (es : list (string * list cval)) (st : state cval) (rets : list (option cval))
@@ -113,10 +115,9 @@ Definition dispatch_case :=
 Definition ok_dispatch (c : dispatch_case) : bool :=
   let '((l, (t, (cv, es))), (erets, (edels, (ecrash, ecov)))) := c in
   let '(rets, st) := c_run t l es (init_state cval cv) [] in
-  if ecrash then crashed st
+  if ecrash then false
   else
-    negb (crashed st)
-    && list_eqb opt_eqb rets erets
+    list_eqb opt_eqb rets erets
     && list_eqb del_eqb (map (fun d => (d_idx d, (d_hook d, d_args d))) (dels st)) edels
     && match cov st with
        | None => match ecov with [] => negb cv | _ => false end
@@ -157,8 +158,32 @@ Definition ok_binds (c : list param * (nat * (list string * bool))) : bool :=
 (* lifecycle: launch, body, expected notes *)
 Definition note_eqb (a b : note) : bool :=
   match a, b with
-  | NBegin x, NBegin y | NEv x, NEv y | NUncaught x, NUncaught y | NEnd x, NEnd y | NDump x, NDump y => Nat.eqb x y
+  | NBegin x, NBegin y | NEv x, NEv y | NRe x, NRe y | NUncaught x, NUncaught y | NEnd x, NEnd y | NDump x, NDump y => Nat.eqb x y
   | _, _ => false
   end.
-Definition ok_lifecycle (c : launch * items * list note) : bool :=
-  let '(l, body, expected) := c in list_eqb note_eqb (notes (run_process l body)) expected.
+(* the recorder of the subprocess stream observes begin / events / uncaught / end, not the catch's
+   runtime_event and not the dump *)
+Definition observable (n : note) : bool := match n with NRe _ | NDump _ => false | _ => true end.
+Definition out_code (o : out) : nat := match o with ONormal => 0 | ORaise => 1 | OExit => 2 | OCrash => 3 end.
+Definition ok_lifecycle (c : bool * launch * items * (list note * nat)) : bool :=
+  let '(cov, l, body, (expected, eout)) := c in
+  let '(o, p) := run_process_cov cov l body in
+  list_eqb note_eqb (filter observable (notes p)) expected && Nat.eqb (out_code o) eout.
+(* the property's grammar, per engine: begin, events, at most one uncaught report, end -- and nothing after *)
+Fixpoint grammar_from (st : nat) (ns : list note) : bool :=
+  match ns with
+  | [] => Nat.eqb st 3
+  | n :: r =>
+    match st, n with
+    | 0, NBegin _ => grammar_from 1 r
+    | 1, NEv _ => grammar_from 1 r
+    | 1, NUncaught _ => grammar_from 2 r
+    | 1, NEnd _ => grammar_from 3 r
+    | 2, NEnd _ => grammar_from 3 r
+    | _, _ => false
+    end
+  end.
+Definition model_meets_grammar (c : bool * launch * items) : bool :=
+  let '(cov, l, body) := c in
+  let '(o, p) := run_process_cov cov l body in
+  grammar_from 0 (filter observable (notes p)) && negb (Nat.eqb (out_code o) 3).
